@@ -5,6 +5,7 @@ import shutil
 import z3
 
 from .. import mirvc, native
+from . import _mir
 
 
 DRIVER_PAT = r"(sequential::apply_patches$|ThreadPool::install::<)"
@@ -42,6 +43,12 @@ def spec(tier, seed):
         "instances": [],
         "mir_vcs": [
             {"name": "cmd_push: range arithmetic and slice preconditions", "function": "cmd_push", "target": "bin", "run": _run_range},
+            {"name": "cmd_push: unknown or already applied goal is refused", "function": "cmd_push", "target": "bin",
+             "run": lambda f, v, w: _mir.vc_goal_refused(f, v, w)},
+            {"name": "parallel::apply_patches: a load / parse error returns before any worker starts", "function": "parallel::apply_patches", "target": "bin",
+             "run": lambda f, v, w: _mir.vc_load_errors_before_workers(f, v, w)},
+            {"name": "sequential::apply_patches: a load / parse error returns before anything is saved", "function": "sequential::apply_patches", "target": "bin",
+             "run": lambda f, v, w: _mir.vc_sequential_order(f, v, w)},
         ],
         "level": "other",
         "engine": "mirvc: bounded symbolic execution of the nightly MIR of cmd.rs::cmd_push, VCs decided by z3 4.8.12, cross-checked with cvc5",
@@ -112,5 +119,9 @@ def replay_candidate(v, work, log):
             out.update(reproduced=True, path=p, what="rapidquilt push %s with series=%s applied=%s exits %d: %s" %
                        (" ".join(args), series, applied, rc, se.strip().split("\n")[0][:160]), tags=[name])
             return out
-    out["why"] = "no generated workspace made the real binary crash (candidate is an artefact of havoc'd callees)"
+    from .. import scenarios
+    r2 = scenarios.replay_for("C17", v, work, log)
+    if r2["reproduced"]:
+        return r2
+    out["why"] = "no generated workspace made the real binary crash or change the tree (candidate is an artefact of havoc'd callees)"
     return out
